@@ -33,6 +33,10 @@ type ProcResult struct {
 	ExitErr    error
 	TimedOut   bool
 	WallS      float64
+
+	sigs        map[string]bool
+	reports     []raceReport
+	harnessOnly bool
 }
 
 var procSeq int64
